@@ -63,7 +63,10 @@ def main():
     if a.recheck:
         d = os.path.join(VERIF, 'seeded', '%s-%s' % (pid, n))
         meta = json.load(open(os.path.join(d, 'meta.json')))
-        meta['caught_by'] = run_checks(os.path.join(d, 'patch.diff'), pid, n)
+        cb = run_checks(os.path.join(d, 'patch.diff'), pid, n)
+        if cb is None:
+            return 2
+        meta['caught_by'] = cb
         json.dump(meta, open(os.path.join(d, 'meta.json'), 'w'), indent=1)
         print('%s-%s caught by:' % (pid, n), {k: v['rules'] or v['tail'] for k, v in meta['caught_by'].items()})
         return 0
